@@ -15,6 +15,7 @@ pub fn register(v: &mut Vec<(&'static str, crate::Harness)>) {
     v.push(("h_c14_pretty", h_c14_pretty));
     v.push(("h_c16_tokens", h_c16_tokens));
     v.push(("h_c16_outputs", h_c16_outputs));
+    v.push(("h_c16_deep", h_c16_deep));
 }
 
 fn one(name: &'static str) -> String {
@@ -557,8 +558,9 @@ pub fn h_c16_outputs() {
                     declared.push(p);
                 }
                 if n == top {
-                    // a subtree serialised on its own also declares what it inherits
-                    for (p, ns) in xot.inherited_prefixes(n) {
+                    // the top element of what is serialised also announces the bindings it
+                    // inherits (everything in scope that it does not declare itself)
+                    for (p, ns) in xot.namespaces_in_scope(n) {
                         if !declared.contains(&p) {
                             out.push(Ev::Prefix(n, p, ns));
                         }
@@ -617,4 +619,39 @@ pub fn h_c16_outputs() {
         }
     }
     sym::check("output-events-as-the-tree-dictates", same);
+}
+
+/// deep nesting: the indentation field of the pretty tokens and the pretty
+/// string must agree at every depth
+pub fn h_c16_deep() {
+    let mut xot = Xot::new();
+    let na = xot.add_name("a");
+    let top = xot.new_element(na);
+    let doc = xot.new_document_with_element(top).unwrap();
+    let depth = sym::param("DEPTH", 36);
+    let mut cur = top;
+    for _ in 0..depth {
+        let e = xot.new_element(na);
+        xot.append(cur, e).unwrap();
+        cur = e;
+    }
+    let want = xot.serialize_xml_string(Parameters { indentation: Some(Indentation { suppress: vec![] }), ..Default::default() }, doc);
+    let mut got = String::new();
+    let tp = TokenSerializeParameters { cdata_section_elements: vec![], unescaped_gt: false };
+    for (_n, _o, t) in xot.pretty_tokens(doc, tp, &[], NoopNormalizer) {
+        for _ in 0..t.indentation {
+            got.push_str("  ");
+        }
+        if t.space {
+            got.push(' ');
+        }
+        got.push_str(&t.text);
+        if t.newline {
+            got.push('\n');
+        }
+    }
+    match want {
+        Ok(w) => sym::check("pretty-tokens-give-the-pretty-string-at-depth", got == w),
+        Err(_) => sym::check("serialisation-succeeds", false),
+    }
 }
